@@ -45,6 +45,8 @@ Fixpoint fitting (fuel : nat) (fc : list doc) (bc : list cmd) (brk : bool) (pos 
           | DNil => fitting fuel fc' bc brk pos width
           | DAppend a b => fitting fuel (a :: b :: fc') bc brk pos width
           | DHardline => brk
+          | DComment => let pos' := pos + 2 in                   (* text "//" then hardline *)
+                        if width <? pos' then false else brk
           | DText a => let pos' := pos + text_len a in
                        if width <? pos' then false else fitting fuel fc' bc brk pos' width
           | DSpace => let pos' := pos + 1 in
@@ -81,6 +83,7 @@ Fixpoint best (fuel ffuel : nat) (bc : list cmd) (pos width : N) (out : list str
           | DNest off d' => best fuel ffuel ((nest_ind ind off, flat, d') :: bc') pos width out
           | DAlign d' => best fuel ffuel ((pos, flat, d') :: bc') pos width out
           | DHardline => best fuel ffuel bc' ind width (newline ind :: out)
+          | DComment => best fuel ffuel bc' ind width (spaces ind :: comment_text :: out)   (* "//" ++ newline ind *)
           | DText a => best fuel ffuel bc' (pos + text_len a) width (atom_text a :: out)
           | DSpace => best fuel ffuel bc' (pos + 1) width (" " :: out)
           | DLine => if flat then best fuel ffuel bc' (pos + 1) width (" " :: out)
